@@ -131,7 +131,7 @@ Ltac inv H := inversion H; subst; clear H.
 Lemma step_ok_valid c s r s' :
   step fixed c s r = (s', Ok) -> accepted_ok c s r s'.
 Proof.
-  destruct r as [h p | prev p | id first wf complete mons]; cbn [step accepted_ok].
+  destruct r as [h p | prev p | id first wf complete mons | rmons]; cbn [step accepted_ok].
   - unfold add.
     destruct (finish_decode s p (hid h)); try (intros H; discriminate H).
     destruct (pfh p) as [fh|] eqn:Hfh; try (intros H; discriminate H).
@@ -159,6 +159,14 @@ Proof.
       rewrite zipw_set_mon_watch. auto.
     + destruct (decoding s) as [[id' b]|]; try (intros H; discriminate H).
       destruct (id' =? id); intros H; inv H. auto.
+  - unfold restart. unfold watch_view, quiet.
+    destruct (checkpoint c) as [[hd0 h0]|] eqn:Hc.
+    + destruct (height s =? 0) eqn:Hz; intros H; inv H; cbn [hdrs tip height slots decoding mon_dec];
+        rewrite zipw_set_mon_watch; (split; [reflexivity|]); (split; [split; reflexivity|]).
+      * right. apply N.eqb_eq in Hz. split; [exact Hz|]. exists hd0, h0. auto.
+      * left. auto.
+    + intros H; inv H. cbn [hdrs tip height slots decoding mon_dec].
+      rewrite zipw_set_mon_watch. split; [reflexivity|]. split; [split; reflexivity|]. left. auto.
 Qed.
 
 Lemma reject_fixed s p took : reject fixed s p took = if is_ext p then quiesce s else s.
@@ -169,7 +177,7 @@ Proof. reflexivity. Qed.
 Lemma step_err_settled c s r s' e :
   step fixed c s r = (s', Err e) -> s' = settled r s.
 Proof.
-  unfold settled. destruct r as [h p | prev p | id first wf complete mons]; cbn [step streamed].
+  unfold settled. destruct r as [h p | prev p | id first wf complete mons | rmons]; cbn [step streamed].
   - unfold add. rewrite !reject_fixed.
     destruct (finish_decode s p (hid h)); try (intros H; inv H; reflexivity).
     destruct (pfh p) as [fh|]; try (intros H; discriminate H).
@@ -190,6 +198,7 @@ Proof.
       destruct (mon_dec s && has_listeners s); intros H; discriminate H.
     + destruct (decoding s) as [[id' b]|]; try (intros H; discriminate H).
       destruct (id' =? id); intros H; discriminate H.
+  - unfold restart. destruct (checkpoint c) as [[hd0 h0]|]; [destruct (height s =? 0)|]; intros H; discriminate H.
 Qed.
 
 Lemma view_quiesce s : view (quiesce s) = view s.
@@ -346,7 +355,7 @@ Proof.
     by (intros [] Hb; [unfold clean; cbn; discriminate | discriminate Hb]).
   assert (Hq' : forall b : bool, clean (if b then quiesce s else s))
     by (intros []; [unfold clean; cbn; discriminate | exact Hs]).
-  destruct r as [h p | prev p | id first wf complete mons]; cbn [step].
+  destruct r as [h p | prev p | id first wf complete mons | rmons]; cbn [step].
   - unfold add. rewrite !reject_fixed. unfold finish_decode.
     destruct (decoding s) as [[i b]|] eqn:Hd.
     + (* streaming: only an external proof gets past the assertion *)
@@ -393,6 +402,8 @@ Proof.
       unfold clean. cbn. discriminate.
     + destruct (decoding s) as [[id' b]|] eqn:Hd; cbn [fst]; [|exact Hs].
       destruct (id' =? id); cbn [fst]; [|exact Hs]. unfold clean. cbn. discriminate.
+  - unfold restart. destruct (checkpoint c) as [[hd0 h0]|]; [destruct (height s =? 0)|];
+      cbn [fst]; unfold clean; cbn; discriminate.
 Qed.
 
 Lemma history_clean c rs s : clean s -> clean (run fixed c s rs).
@@ -408,7 +419,7 @@ Qed.
 Lemma step_window_ok c s r : window_ok s -> window_ok (fst (step fixed c s r)).
 Proof.
   unfold window_ok. intros [Hl Hn].
-  destruct r as [h p | prev p | id first wf complete mons]; cbn [step].
+  destruct r as [h p | prev p | id first wf complete mons | rmons]; cbn [step].
   - unfold add. rewrite !reject_fixed.
     assert (Hq : forall b : bool, linked (fst (tip (if b then quiesce s else s))) (hdrs (if b then quiesce s else s)) /\
                            (length (hdrs (if b then quiesce s else s)) <= MAX_REORG_SIZE)%nat)
@@ -441,6 +452,8 @@ Proof.
       destruct (mon_dec s && has_listeners s); cbn [fst]; auto.
     + destruct (decoding s) as [[id' b]|]; cbn [fst]; auto.
       destruct (id' =? id); cbn [fst]; auto.
+  - unfold restart. destruct (checkpoint c) as [[hd0 h0]|]; [destruct (height s =? 0)|];
+      cbn [fst tip hdrs linked length]; auto. split; [exact I | unfold MAX_REORG_SIZE; lia].
 Qed.
 
 Lemma history_window_ok c rs s : window_ok s -> window_ok (run fixed c s rs).
